@@ -10,7 +10,7 @@ CLAIMS = {
  "C01": ("Coq theorems over every finite history of the processor model: conservation of tagged data (held + in flight + "
          "acknowledged + given up = accepted, with multiplicities), exactly-once (NoDup) under distinct tags, nothing invented, with an accepting collector data is only ever given up for "
          "capacity / package overwrite and the final flush delivers everything a live run holds; "
-         "monitors (no duplicate acknowledgement, provenance, completeness for an accepting collector) on the real processor's outputs.",
+         "monitors (no duplicate acknowledgement, provenance, completeness for an accepting collector) on the real processor's outputs, incl. transactions handed over right behind a harvest request.",
          "§4 C01", PROC_NOTE, "Coq proof by induction over operation histories (ghost multiset invariant) + differential correspondence + monitors"),
  "C02": ("Coq theorems: no tag acknowledged twice, acknowledged/given-up data is released, a failed payload's tags are conserved "
          "between harvest / refused / given up; a failed request is carried over iff status retryable && category retryable && "
@@ -30,7 +30,7 @@ CLAIMS = {
          "assumption that the collector does not re-issue a live run id (refutation witness otherwise); the application key is the "
          "nine identity fields. Monitors on the real processor: every request carries the "
          "owning application's license / agent identification and one of its own collector hosts / header sets, and only data "
-         "submitted under that run id; multi-tenant histories with restarts, stale and foreign ids. AppKey collision "
+         "submitted under that run id, and the payload is unchanged while the request is outstanding; multi-tenant histories with restarts, stale and foreign ids. AppKey collision "
          "(policy hash) is a listed known finding with a Coq witness.",
          "§4 C04", PROC_NOTE, "Coq proof + differential correspondence + isolation monitors"),
  "C06": ("Coq theorems for every offer/merge sequence: container/heap transcription is a permutation and keeps heap order; "
@@ -61,7 +61,7 @@ CLAIMS = {
          "Coq proof + differential correspondence + hang monitor"),
  "C12": ("Coq theorems: the trigger plan equals the specified cadence for every event_harvest_config / span_event_harvest_config, "
          "zero-limit categories are never sent, and for n in {1,6} triggers the cancel hand-shake LTS (enumerated inside Coq) is "
-         "deadlock-free, terminates after Close and never blocks the processor; real trigger goroutines with a woven ticker.",
+         "deadlock-free, terminates after Close and never blocks the processor; real trigger goroutines with a woven ticker; restarts with a different harvest configuration on a real processor.",
          "§4 C12", "goroutine start-up abstracted; n is 1 or 6 as in the code; periods < 2^63 ns.",
          "Coq proof (functional part) + in-Coq exhaustive LTS enumeration lifted by forallb_forall + trace inclusion"),
  "C13": ("Coq theorems over all pairs of policy maps: verify iff the three documented conditions, fail-closed (no connect request "
@@ -75,7 +75,7 @@ CLAIMS = {
  "C05": ("Coq theorems: the generated limits equal the documented ones; at most 2000 unforced metrics under every build and "
          "iteration order, forced offers never refused, numDropped exact; every reservoir capacity is min(daemon max, collector "
          "limit) (log: also the agent limit scaled to the report period) for ALL agent/collector values incl. absent, negative, "
-         "> max, >= 2^63; advertised limits; 250-application cap over all histories; counters exact through merges and Split.",
+         "> max, >= 2^63; advertised limits; 250-application cap over all histories; counters exact through merges and Split; capacity periods with scoped names on the real metric table.",
          "§4 C05", "float64 arithmetic of processLogEventLimits modelled on Z (exactness argued for products < 2^53); encoding/json decode modelled.",
          "Coq proof + grid/differential correspondence through parseConnectReply, UnmarshalAppInfo, NewHarvest and a real Processor"),
  "C10": ("Coq theorems over EVERY byte string: decoding on the connection goroutine ends in ok/error/recovered panic with the "
